@@ -7,9 +7,11 @@ import (
 	"encoding/hex"
 	"encoding/json"
 	"fmt"
+	"os"
 	"strings"
 	"sync"
 	"sync/atomic"
+	"time"
 
 	"github.com/vapourismo/knx-go/knx/cemi"
 	"github.com/vapourismo/knx-go/knx/knxnet"
@@ -191,6 +193,26 @@ func reservedConservative(b []byte) bool {
 	return false
 }
 
+// wouldLoop recognises the byte strings on which DescriptionBlock.Unpack of the unrepaired tree
+// never returns (a description response whose DIB chain, followed by its length octets, reaches a
+// DIB of length 0 - finding 3 of DESIGN §6, C01's business). They are not "accepted byte strings"
+// and are skipped here so that this check terminates; a watchdog turns any other hang into an
+// INFRA-ERROR instead of a silent stall.
+func wouldLoop(b []byte) bool {
+	if len(b) < 8 || uint16(b[2])<<8|uint16(b[3]) != refenc.DescrResID {
+		return false
+	}
+	body := b[6:]
+	for off := 0; off+1 < len(body); {
+		l := int(body[off])
+		if l == 0 {
+			return true
+		}
+		off += l
+	}
+	return false
+}
+
 type stOutcome struct {
 	status string // tally key
 	judged bool   // the re-encoding was decoded and compared
@@ -202,6 +224,10 @@ func judgeStability(b []byte) (o stOutcome) {
 		o.status = "violation"
 		o.f = &finding{"C02:" + class, fmt.Sprintf(format, a...)}
 		return o
+	}
+	if wouldLoop(b) {
+		o.status = "not-decoded: DIB of length 0 (decoder of the unrepaired tree does not terminate, C01)"
+		return
 	}
 	var v1 knxnet.Service
 	var err error
@@ -355,6 +381,29 @@ func stabilitySpace(r *enumlib.Run, c *collector, ord int) {
 	var expired int32
 	var mu sync.Mutex
 	seen := map[[16]byte]struct{}{} // judged byte strings (two different corpus frames can meet in one substitution)
+	// watchdog: a single case that takes more than 20 s is a hang of the code under test
+	var current [64]atomic.Value // per shard: *watched
+	type watched struct {
+		since time.Time
+		hex   string
+	}
+	stop := make(chan struct{})
+	defer close(stop)
+	go func() {
+		for {
+			select {
+			case <-stop:
+				return
+			case <-time.After(time.Second):
+			}
+			for i := range current {
+				if w, _ := current[i].Load().(*watched); w != nil && time.Since(w.since) > 20*time.Second {
+					fmt.Printf("INFRA-ERROR property=C02 a library call has not returned for 20 s on input %s (hang of the code under test; C01 covers termination)\n", w.hex)
+					os.Exit(2)
+				}
+			}
+		}
+	}()
 	r.Parallel(func(shard, n int) {
 		l := newLocal()
 		var ev, sk int64
@@ -367,6 +416,9 @@ func stabilitySpace(r *enumlib.Run, c *collector, ord int) {
 			orig, fname := corpus[fi].Bytes, corpus[fi].Name
 			buf := append([]byte(nil), orig...)
 			judge := func(caseIdx int64, b []byte) {
+				if caseIdx&0x3FF == 0 || caseIdx == starts[fi] {
+					current[shard%len(current)].Store(&watched{time.Now(), hex.EncodeToString(b)})
+				}
 				o := judgeStability(b)
 				l.tally["decode_encode_decode:"+o.status]++
 				if o.f != nil {
@@ -395,6 +447,7 @@ func stabilitySpace(r *enumlib.Run, c *collector, ord int) {
 				}
 				buf[pos] = orig[pos]
 			}
+			current[shard%len(current)].Store((*watched)(nil))
 			if fi == len(corpus)/2 {
 				r.Sample(map[string]interface{}{"space": name, "corpus_frame": fname, "bytes": hex.EncodeToString(orig)})
 			}
